@@ -391,6 +391,14 @@ def lemmas(ctx):
            z3.And(lo <= Tn2, Tn2 <= hi))
 
 
+@unit("C10", "lean_lemmas", engine="Lean")
+def lean_lemmas(ctx):
+    """L2 for any number of entering streams (Lean 4 + Mathlib): a mix with positive weights lies between
+    every lower and upper bound of the stream temperatures; L1: imposed-temperature rows stay exact."""
+    ctx.lean("L2/mix-between-any-number-of-streams", ["L2_mix_between"])
+    ctx.lean("L1/affine-row-exact-after-full-step", ["L1_affine_row_exact"])
+
+
 # ---------------------------------------------------------------------------------------------
 # assembly of the thermal rows into the linear system (engine E3, shared with C01)
 
